@@ -45,7 +45,11 @@ def lookup_obligations(ctx, repo, qual, rule):
     g, sites = lookup_sites(fi)
     kinds = sorted(k for k, _, _ in sites)
     if kinds != ["cfg", "log", "pack"]:
-        # imports done another way (helper, variable holding the module): not readable by this rule
+        # imports done another way (helper, variable holding the module): not readable as string templates - decided by
+        # interpretation on a model source instead (synchronous owners only; the awaitable connect is run on the
+        # connection model by its caller)
+        if not fi.is_async:
+            return lookup_model(ctx, repo, qual, rule)
         raw = [n for n in g.stmt_nodes() for c in n.calls() if call_name(c) == "import_module"]
         ctx.error(f"{qual}: expected one import_module(..).GeckoPack/.GeckoConfigStruct/.GeckoLogStruct site each, found {kinds} ({len(raw)} import_module calls) - idiom not supported by {rule}")
         return 0
@@ -91,3 +95,60 @@ def lookup_obligations(ctx, repo, qual, rule):
 
 
 KINDS_INV = {v: k for k, v in KINDS.items()}
+
+
+def lookup_model(ctx, repo, qual, rule):
+    """The same question by interpretation, for code whose lookups are not three visible import_module(..).Class sites
+    (helpers, partials, a shared loader): the function is run on a model object with a source (FILES reply / snapshot)
+    naming platform 'inYT' / 'Mas-IBC-32K' with DIFFERENT config and log versions; importlib.import_module is a stand-in
+    that records the module name asked for and hands out a module whose GeckoPack / GeckoConfigStruct / GeckoLogStruct
+    record which module they were taken from.  Expected: exactly the three modules
+    geckolib.driver.packs.<platform lower-cased>[, -cfg-<config version>, -log-<log version>], each class from its own.
+    -> number of lookups decided (3) or 0"""
+    from .absint import ClassRef, Interp, Native, Obj, Opaque, PyRaise, Undecided
+    from .core import AnalysisError
+    fi = repo.func(qual)
+    n_ok = 0
+    for plat, cv, lv in (("inYT", 61, 59), ("Mas-IBC-32K", 1, 2)):
+        it = Interp(repo, max_depth=12)
+        asked, taken = [], []
+
+        def module(name):
+            def cls(kind):
+                def make(a, k, kind=kind, name=name):
+                    taken.append((kind, name))
+                    return Obj(None, {"type": 7, "accessors": {}, "output_keys": [], "all_device_keys": [], "user_demand_keys": [], "error_keys": [], "begin": 0, "end": 1024, "xml": None}, name=f"{kind}<{name}>")
+                return Native(make, kind)
+            return Obj(None, {k: cls(k) for k in KINDS}, name=f"module<{name}>")
+
+        def hook(it_, node, callee, args, kwargs):
+            nm = getattr(callee, "name", "")
+            if nm.endswith("import_module"):
+                asked.append(args[0] if args else None)
+                return module(args[0] if args else None)
+            if nm in ("asyncio.sleep",):
+                return None
+            return NotImplemented
+        it.call_hook = hook
+        src = Obj(None, {"plateform_key": plat, "config_version": cv, "log_version": lv, "packtype": plat, "bytes": bytes(1024), "name": "snap"}, name="source")
+        struct = Obj(None, {"replace_status_block_segment": Native(lambda a, k: None), "build_accessors": Native(lambda a, k: None), "accessors": {}, "retry_request": Native(lambda a, k: None),
+                            "reset": Native(lambda a, k: None), "set_status_block": Native(lambda a, k: None)}, name="structure")
+        me = Obj(fi.cls, {"struct": struct, "structure": struct, "get_and_increment_sequence_counter": Native(lambda a, k: 1), "sendparms": ("10.1.2.3", 10022, b"S", b"C")}, name="owner")
+        n_extra = len(fi.node.args.args) - 2
+        try:
+            it.call(fi, me, [src] + [Opaque(f"arg{i}") for i in range(max(n_extra, 0))])
+        except PyRaise:
+            pass          # what follows the lookups (requests, accessor building) is not this rule's subject
+        except Undecided as e:
+            if len(asked) < 3:
+                raise AnalysisError(f"{qual} on the model source ({plat}, cfg {cv}, log {lv}): {e}")
+        p = plat.lower()
+        want = [f"{PREFIX}{p}", f"{PREFIX}{p}-cfg-{cv}", f"{PREFIX}{p}-log-{lv}"]
+        ctx.ob(rule, f"{qual}::modules-asked-for::{plat}", asked == want,
+               f"{qual} for platform {plat!r}, config version {cv}, log version {lv} imports {asked}, expected {want} (lower-cased platform; the config table by the config version, the log table by the log version)",
+               fi.loc, sample={"rule": rule, "site": qual, "platform": plat, "imports": [str(a) for a in asked]})
+        want_taken = [("GeckoPack", want[0]), ("GeckoConfigStruct", want[1]), ("GeckoLogStruct", want[2])]
+        ctx.ob(rule, f"{qual}::classes-taken-from::{plat}", sorted(taken) == sorted(want_taken),
+               f"{qual}: classes instantiated (class, module) = {taken}, expected {want_taken}", fi.loc)
+        n_ok += asked == want
+    return 3 if n_ok == 2 else (3 if n_ok else 0)
